@@ -15,6 +15,7 @@
  *   putvar <varid> <hex>             whole fixed-size variable (rank 0 writes, the others take part with zero counts)
  *   putrec <varid> <rec> <hex>       one record of a record variable
  *   inq    -> inq <err> <header_size> <header_extent> <recsize> <numrecs|-1> <nvars> <varoffset>*
+ *   snap <path>  -> snap 0 <size> <hex of the whole file>     (barrier, then rank 0 reads the file with POSIX calls)
  */
 #include <stdio.h>
 #include <stdlib.h>
@@ -180,6 +181,22 @@ int main(int argc, char **argv) {
             fprintf(out, "inq %d %lld %lld %lld %lld %d", err, (long long)hs, (long long)he, (long long)rs, (long long)nr, nv);
             for (i = 0; i < nv; i++) { MPI_Offset off = -1; ncmpi_inq_varoffset(ncid, i, &off); fprintf(out, " %lld", (long long)off); }
             fputc('\n', out);
+        } else if (!strcmp(op, "snap")) {
+            MPI_Barrier(MPI_COMM_WORLD);
+            if (rank == 0) {
+                FILE *f = fopen(tok[1], "rb");
+                if (!f) fprintf(out, "snap -1 0 -\n");
+                else {
+                    int c; long n = 0;
+                    fseek(f, 0, SEEK_END); n = ftell(f); fseek(f, 0, SEEK_SET);
+                    fprintf(out, "snap 0 %ld ", n);
+                    if (n == 0) fputc('-', out);
+                    while ((c = fgetc(f)) != EOF) fprintf(out, "%02x", c);
+                    fputc('\n', out);
+                    fclose(f);
+                }
+            } else fprintf(out, "snap 0 0 -\n");
+            MPI_Barrier(MPI_COMM_WORLD);
         } else {
             fprintf(out, "unknown-op 0\n");
         }
